@@ -1157,4 +1157,129 @@ theorem roundtrip (var : Variant) (perm : Perm) (hv : perm.valid) (h : Heap) (w 
     (by omega) (by omega) (by simp; unfold MAX_BYTEARRAY_SIZE at hsz; unfold two64; omega)
   simpa [deserialize] using this
 
+/-! ## independence of the iteration order -/
+
+/-- every map of the heap is in canonical form (what every VM operation maintains) -/
+def WFMaps (h : Heap) : Prop := ∀ (r : Ref) es, h[r]? = some (Obj.map es) → SortedK es
+
+theorem chainDeep_perm_free (p1 p2 : Perm) (h1 : p1.valid) (h2 : p2.valid) (path1 path2 : List Nat) (h : Heap) :
+    ∀ k v, chainDeep p1 path1 h k v = chainDeep p2 path2 h k v := by
+  intro k
+  induction k with
+  | zero => intro v; rfl
+  | succ k ih =>
+    intro v
+    cases v with
+    | ref r =>
+      unfold chainDeep
+      cases ho : h[r]? with
+      | none => rfl
+      | some o =>
+        cases o with
+        | arr vs => cases vs with
+          | nil => rfl
+          | cons v0 _ => exact ih v0
+        | struct vs => cases vs with
+          | nil => rfl
+          | cons v0 _ => exact ih v0
+        | map es =>
+          simp only
+          have e : (fun e : Entry => chainDeep p1 path1 h k e.val) = (fun e : Entry => chainDeep p2 path2 h k e.val) := by
+            funext e; exact ih e.val
+          rw [e, ((h1 path1 r es).trans (h2 path2 r es).symm).any_eq]
+    | _ => rfl
+
+theorem detect_sound_perm_free (p1 p2 : Perm) (h1 : p1.valid) (h2 : p2.valid) (path1 path2 : List Nat) (h : Heap) (v : Val) :
+    detect .sound p1 path1 h v = detect .sound p2 path2 h v := by
+  simp only [detect, detSound, chainDeep_perm_free p1 p2 h1 h2 path1 path2 h]
+
+theorem serList_congr {rec1 rec2 : List Nat → Val → Nat → Except VErr Bytes} (hr : ∀ p v s, rec1 p v s = rec2 p v s)
+    (path : List Nat) : ∀ vs i size, serList rec1 path i vs size = serList rec2 path i vs size := by
+  intro vs
+  induction vs with
+  | nil => intro i size; rfl
+  | cons v vs ih =>
+    intro i size
+    simp only [serList, hr]
+    cases rec2 (i :: path) v size with
+    | error e => rfl
+    | ok o => simp only [ih]
+
+/-- `ser` depends on the iteration orders only through the detector's verdicts (the sorted key order is canonical) -/
+theorem ser_congr (var1 var2 : Variant) (p1 p2 : Perm) (hv1 : p1.valid) (hv2 : p2.valid) (h : Heap) (w : WFMaps h)
+    (hd : ∀ path v, detect var1 p1 path h v = detect var2 p2 path h v) :
+    ∀ f path v size, ser var1 p1 h f path v size = ser var2 p2 h f path v size := by
+  intro f
+  induction f with
+  | zero => intro path v size; rfl
+  | succ f ih =>
+    intro path v size
+    unfold ser
+    rw [hd path v]
+    split
+    · rfl
+    · cases v with
+      | ref r =>
+        simp only
+        cases ho : h[r]? with
+        | none => rfl
+        | some o =>
+          simp only
+          have hk : serKids p1 path r o = serKids p2 path r o := by
+            cases o with
+            | map es =>
+              have hs := w r es ho
+              simp only [serKids]
+              rw [sortedEntries_eq _ hv1 path r hs, sortedEntries_eq _ hv2 path r hs]
+            | _ => rfl
+          rw [hk, serList_congr (fun p v s => ih p v s)]
+      | _ => rfl
+
+theorem serialize_sound_perm_free (p1 p2 : Perm) (hv1 : p1.valid) (hv2 : p2.valid) (h : Heap) (w : WFMaps h) (v : Val) :
+    serialize .sound p1 h v = serialize .sound p2 h v :=
+  ser_congr .sound .sound p1 p2 hv1 hv2 h w (fun path v => detect_sound_perm_free p1 p2 hv1 hv2 path path h v) _ _ _ _
+
+theorem serList_ok_unique {rec1 rec2 : List Nat → Val → Nat → Except VErr Bytes}
+    (hr : ∀ p1 p2 v s b1 b2, rec1 p1 v s = .ok b1 → rec2 p2 v s = .ok b2 → b1 = b2) :
+    ∀ vs path1 path2 i1 i2 size b1 b2, serList rec1 path1 i1 vs size = .ok b1 → serList rec2 path2 i2 vs size = .ok b2 → b1 = b2 := by
+  intro vs
+  induction vs with
+  | nil => intro _ _ _ _ _ b1 b2 h1 h2; rw [serList_nil_ok h1, serList_nil_ok h2]
+  | cons v vs ih =>
+    intro path1 path2 i1 i2 size b1 b2 h1 h2
+    obtain ⟨o1, os1, a1, a2, rfl⟩ := serList_cons_ok h1
+    obtain ⟨o2, os2, c1, c2, rfl⟩ := serList_cons_ok h2
+    have e := hr _ _ _ _ _ _ a1 c1
+    subst e
+    rw [ih _ _ _ _ _ _ _ a2 c2]
+
+/-- **Whenever serialization succeeds its bytes are the same** — for either detector variant, any two iteration orders, any
+recursion budgets: the order in which a map is written is the sorted key order. -/
+theorem ser_ok_unique (var1 var2 : Variant) (p1 p2 : Perm) (hv1 : p1.valid) (hv2 : p2.valid) (h : Heap) (w : WFMaps h) :
+    ∀ f1 f2 path1 path2 v size b1 b2, ser var1 p1 h f1 path1 v size = .ok b1 → ser var2 p2 h f2 path2 v size = .ok b2 → b1 = b2 := by
+  intro f1
+  induction f1 with
+  | zero => intro f2 path1 path2 v size b1 b2 h1 _; exact absurd h1 ser_zero
+  | succ f1 ih =>
+    intro f2 path1 path2 v size b1 b2 h1 h2
+    cases v with
+    | bytes d => rw [(ser_bytes_ok h1).1, (ser_bytes_ok h2).1]
+    | bool b => rw [(ser_bool_ok h1).1, (ser_bool_ok h2).1]
+    | int z => rw [(ser_int_ok h1).1, (ser_int_ok h2).1]
+    | ref r =>
+      obtain ⟨f1', o1, body1, e1, ho1, hb1, rfl, _⟩ := ser_ref_ok h1
+      obtain ⟨f2', o2, body2, e2, ho2, hb2, rfl, _⟩ := ser_ref_ok h2
+      cases e1
+      rw [ho1] at ho2
+      cases ho2
+      have hk : serKids p1 path1 r o1 = serKids p2 path2 r o1 := by
+        cases o1 with
+        | map es =>
+          have hs := w r es ho1
+          simp only [serKids]
+          rw [sortedEntries_eq _ hv1 path1 r hs, sortedEntries_eq _ hv2 path2 r hs]
+        | _ => rfl
+      rw [hk] at hb1
+      rw [serList_ok_unique (fun q1 q2 v s c1 c2 a1 a2 => ih f2' q1 q2 v s c1 c2 a1 a2) _ _ _ _ _ _ _ _ hb1 hb2]
+
 end OntVerif.Proofs.NeoVal
